@@ -66,6 +66,14 @@ def gen_tree(rng):
         else:
             files["docs/notes%d.txt" % k] = (False, None, "class Fake {}\n")
     gitignore = "generated/\n" if any(ig for ig, _, _ in files.values()) or rng.random() < 0.3 else ""
+    # a pattern that matches a FILE (not a directory): its siblings listed after it must still be analysed
+    cands = [p for p, (ig, u, _) in files.items() if u is not None and not ig]
+    if len(cands) >= 2 and rng.random() < 0.3:
+        p = rng.choice(sorted(cands)[:-1])
+        base = p.rsplit("/", 1)[-1]
+        if sum(1 for q in files if q.rsplit("/", 1)[-1] == base) == 1:
+            gitignore += (base if rng.random() < 0.5 else base[:2] + "*.java" if sum(1 for q in files if q.rsplit("/", 1)[-1].startswith(base[:2])) == 1 else base) + "\n"
+            files[p] = (True, files[p][1], files[p][2])
     if gitignore:
         files[".gitignore"] = (False, None, gitignore)
     order = walk_order(list(files))
